@@ -13,10 +13,16 @@ Open Scope N_scope.
 Definition c_at : N := 64.      (* '@' *)
 Definition c_slash : N := 47.   (* '/' *)
 
-(* invalidRunes of isUsernameValid: at, slash, apostrophe, double quote, colon, less-than, greater-than *)
-Definition local_forbidden : list N := [64; 47; 39; 34; 58; 60; 62].
-(* invalidRunes of isDomainValid: at, slash *)
-Definition domain_forbidden : list N := [64; 47].
+(* invalidRunes of isUsernameValid: at, slash, apostrophe, double quote, colon, less-than,
+   greater-than, ampersand - the eight characters RFC 7622 section 3.3.1 forbids in a
+   localpart.  REPAIRED (hunt finding C15/f1): the unrepaired list lacked the ampersand. *)
+Definition local_forbidden : list N := [64; 47; 39; 34; 58; 60; 62; 38].
+(* invalidRunes of isDomainValid: at, slash, apostrophe, double quote, less-than, greater-than,
+   ampersand.  REPAIRED (hunt finding C15/f2): the unrepaired list held only at and slash,
+   so the five characters that are special in XML were accepted in a domain (and the
+   domain is what the transports write into the stream header).  The colon stays
+   legal: IPv6 literals. *)
+Definition domain_forbidden : list N := [64; 47; 39; 34; 60; 62; 38].
 
 Definition mem (c : N) (l : list N) : bool := existsb (N.eqb c) l.
 
